@@ -442,9 +442,16 @@ impl BlockData {
                 parent = new_parent;
             }
 
-            // cap preallocation to the slice size limit (wincode has a 4 MiB default)
+            // cap preallocation (wincode has a 4 MiB default)
+            // NOTE: The limit applies to the in-memory size of the decoded `Vec<Transaction>`,
+            // not to the encoded bytes. An (empty) transaction takes 8 bytes on the wire but
+            // `size_of::<Transaction>()` in memory, so a slice full of tiny transactions
+            // needs more than `MAX_DATA_PER_SLICE` here although it is perfectly valid.
+            const MAX_TXS_PER_SLICE: usize = MAX_DATA_PER_SLICE / 8;
+            const PREALLOCATION_LIMIT: usize =
+                MAX_TXS_PER_SLICE * std::mem::size_of::<crate::Transaction>();
             let config =
-                DefaultConfig::default().with_preallocation_size_limit::<MAX_DATA_PER_SLICE>();
+                DefaultConfig::default().with_preallocation_size_limit::<PREALLOCATION_LIMIT>();
             let mut txs = match wincode::config::deserialize_exact(&slice.data, config) {
                 Ok(r) => r,
                 Err(err) => {
